@@ -1,3 +1,110 @@
-"""thorough tier extras (seeded-variant selftest, witnesses, clippy cross-reference) -- filled in later"""
+"""thorough tier extras: seeded-variant battery (E5), compile-fail witnesses (E6), clippy cross-reference (C07).
+The feature matrix itself is run by main.run_property (every configuration gets its own Ctx).
+None of these can turn a verdict on the current tree red: they test the checker, not /repo."""
+import os, subprocess, re, json, time
+import extract, core
+
+VERIF = core.VERIF
+WITNESS_PROPS = {'C02': ['ReadHandlersAreShared'], 'C19': ['ReadHandlersAreShared'], 'C03': ['LimitNewtypeIsPrivate', 'WriteMultipleFieldsArePrivate'], 'C10': ['PromisesArePrivate']}
+
+
+def run_selftest(prop):
+    import selftest
+    vs = selftest.load_variants(prop)
+    if not vs:
+        return {'variants': 0}
+    rs = selftest.run_variants(prop, vs, verbose=False)
+    out = {'variants': len(rs),
+           'caught': sum(1 for r in rs if r['status'] in ('caught', 'caught-elsewhere')),
+           'benign_silent': sum(1 for r in rs if r['status'] == 'silent-ok'),
+           'missed': [r['variant'] for r in rs if r['status'] == 'MISSED'],
+           'false_alarms': [r['variant'] for r in rs if r['status'] == 'FALSE-ALARM'],
+           'skipped': [r['variant'] for r in rs if r['status'] in ('skipped', 'no-compile')],
+           'details': [{'variant': r['variant'], 'status': r['status'], 'fired': r.get('fired', [])[:3]} for r in rs]}
+    for v in out['missed']:
+        print("SELFTEST: seeded variant %s of %s was NOT caught" % (v, prop))
+    for v in out['false_alarms']:
+        print("SELFTEST: behaviour-preserving variant %s of %s raised an alarm" % (v, prop))
+    return out
+
+
+def run_witnesses(prop):
+    names = WITNESS_PROPS.get(prop)
+    if not names:
+        return None
+    wdir = os.path.join(VERIF, 'engine', 'witness')
+    try:
+        import shutil
+        shutil.copy2(os.path.join(extract.REPO, 'Cargo.lock'), os.path.join(wdir, 'Cargo.lock'))
+    except OSError:
+        pass
+    env = dict(os.environ, CARGO_NET_OFFLINE='true', CARGO_TARGET_DIR=os.path.join(extract.CACHE, 'target-witness'))
+    r = subprocess.run(['cargo', '+nightly', 'test', '--doc', '--offline'], cwd=wdir, env=env, stdout=subprocess.PIPE, stderr=subprocess.STDOUT, text=True)
+    res = {}
+    for m in re.finditer(r'test src/lib\.rs - (\w+) \(line \d+\)( - compile fail)? \.\.\. (\w+)', r.stdout):
+        res.setdefault(m.group(1), []).append((bool(m.group(2)), m.group(3)))
+    out = {'ran': r.returncode == 0 or 'test result' in r.stdout, 'witnesses': {}}
+    for n in names:
+        rs = res.get(n, [])
+        out['witnesses'][n] = {'compile_fail_ok': any(cf and st == 'ok' for cf, st in rs), 'twin_compiles': any((not cf) and st == 'ok' for cf, st in rs)}
+        if not (out['witnesses'][n]['compile_fail_ok'] and out['witnesses'][n]['twin_compiles']):
+            print("WITNESS: %s did not behave as recorded (%s)" % (n, rs))
+    return out
+
+
+CLIPPY_LINTS = ['arithmetic_side_effects', 'indexing_slicing', 'unwrap_used', 'expect_used', 'panic', 'unreachable']
+
+
+def run_clippy_xref(ctx):
+    """an independently written enumerator (clippy restriction lints) must not know a panic-capable site in rodbus's
+    non-test code that the P12 inventory does not list (compared by file:line)"""
+    import panics
+    env = dict(os.environ, CARGO_NET_OFFLINE='true', CARGO_TARGET_DIR=os.path.join(extract.CACHE, 'target-clippy'))
+    flags = ' '.join('-W clippy::%s' % l for l in CLIPPY_LINTS)
+    r = subprocess.run('cargo +nightly clippy --offline -p rodbus --message-format=json -- %s' % flags, shell=True, cwd=extract.REPO, env=env,
+                       stdout=subprocess.PIPE, stderr=subprocess.DEVNULL, text=True)
+    sites = set()
+    for line in r.stdout.splitlines():
+        try:
+            d = json.loads(line)
+        except ValueError:
+            continue
+        msg = d.get('message') or {}
+        code = (msg.get('code') or {}).get('code', '') or ''
+        if not code.startswith('clippy::') or code.split('::')[1] not in CLIPPY_LINTS:
+            continue
+        for sp in msg.get('spans', []):
+            if sp.get('is_primary') and sp.get('file_name', '').startswith('rodbus/src') :
+                sites.add((sp['file_name'], sp['line_start'], code))
+    inv = panics.sites(ctx.P, 'rodbus')
+    lines = {}
+    for s in inv:
+        lines.setdefault((s.body.file, s.line), []).append(s)
+    test_files = set()
+    unknown = []
+    for f, ln, code in sorted(sites):
+        if (f, ln) in lines:
+            continue
+        # multi-line expressions: accept a site on a neighbouring line of the same function
+        near = [k for k in lines if k[0] == f and abs(k[1] - ln) <= 3]
+        if near:
+            continue
+        unknown.append('%s:%d %s' % (f, ln, code))
+    # clippy also reports #[cfg(test)] code when building tests only; `cargo clippy -p rodbus` builds the lib target only
+    return {'clippy_sites': len(sites), 'inventory_sites': len(inv), 'clippy_sites_missing_from_inventory': unknown[:20], 'ran': r.returncode == 0}
+
+
 def run(prop, ctxs, seed):
-    return {}
+    extra = {}
+    t0 = time.time()
+    extra['selftest'] = run_selftest(prop)
+    w = run_witnesses(prop)
+    if w is not None:
+        extra['witnesses'] = w
+    if prop == 'C07':
+        x = run_clippy_xref(ctxs[0])
+        extra['clippy_cross_reference'] = x
+        for u in x['clippy_sites_missing_from_inventory']:
+            print("XREF: clippy reports a panic-capable site the inventory does not list: %s" % u)
+    extra['thorough_extras_wall_s'] = round(time.time() - t0, 1)
+    return extra
